@@ -6,6 +6,10 @@ CORRESPONDENCES = {
     "codec": {"sub": "codec", "cases": {"quick": 12000, "thorough": 400000}, "shards": {"quick": 4, "thorough": 16}},
     # K-ops: Crossover::crossover / mutation::mutate in operation sequences sharing one PathContext vs crossAcc / mutAcc
     "ops": {"sub": "ops", "cases": {"quick": 3000, "thorough": 60000}, "shards": {"quick": 6, "thorough": 16}},
+    # K-algo: the real AlgoContext driven directly; every in-run crossover/mutation call (hook H3) vs crossAcc / mutAcc
+    "algo": {"sub": "algo", "cases": {"quick": 240, "thorough": 4000}, "shards": {"quick": 6, "thorough": 16}},
+    # K-spec: spec_util::from_yaml_str on generated YAML text vs build
+    "spec": {"sub": "spec", "cases": {"quick": 12000, "thorough": 300000}, "shards": {"quick": 6, "thorough": 16}},
     "ctl": {"sub": "ctl", "cases": {"quick": 1500, "thorough": 40000}, "shards": {"quick": 4, "thorough": 16}},
 }
 
@@ -35,7 +39,30 @@ CODEC_TRUST = [
     "serde_json text <-> tree is outside the model (the model starts at the serde_json::Value tree); float law FL-cast (i64 -> f64 is total and finite)",
 ]
 
+SPEC_TRUST = [
+    "model L3 (SpecParse.lean) is hand-written, its whitelists / built-in names / typeDef prefixes are regenerated from spec_util.rs on every run; tied to the code by correspondence K-spec (rendered well-formed specs with hoisted, shadowed, chained typeDefs; single-rule violations; attribute soups; keyword-like member names)",
+    "serde_yaml text -> tree is outside the model (the model starts at the serde_yaml::Value tree; the harness always goes through the real text path)",
+]
+
 PROPS = {
+    "C01": {
+        "modules": ["CambrianModel.Props.C01"],
+        "theorems": ["Cambrian.Props.C01_init", "Cambrian.Props.C01_guess", "Cambrian.Props.C01_cross",
+                     "Cambrian.Props.C01_mut", "Cambrian.Props.C01_run", "Cambrian.Props.C01_report"],
+        "correspondences": ["ops", "algo", "codec"],
+        "trusted": OPS_TRUST + CODEC_TRUST + CTL_TRUST,
+        "assumptions": ["map keys are machine usize values (keysBounded)", "float law FL-cast for the guess reader",
+                        "C01_run: every offspring the random decisions supply is one the operators can produce (LegalFrom) - checked on every in-run operator call by K-algo"],
+    },
+    "C10": {
+        "modules": ["CambrianModel.Props.C10"],
+        "theorems": ["Cambrian.Props.C10_total", "Cambrian.Props.C10_wf", "Cambrian.Props.C10_init_conf",
+                     "Cambrian.Props.C10_roundtrip", "Cambrian.Props.C10_prefixes_agree", "Cambrian.Props.C10_scope_shadow",
+                     "Cambrian.Props.C10_scope_outer", "Cambrian.Props.C10_unknown_type"],
+        "correspondences": ["spec"],
+        "trusted": SPEC_TRUST,
+        "assumptions": ["serde_yaml trees: the as_i64 view of a number is in the i64 range (yvalid)"],
+    },
     "C12": {
         "modules": ["CambrianModel.Props.C12"],
         "theorems": ["Cambrian.Props.C12_prov", "Cambrian.Props.C12_single", "Cambrian.Props.C12_same"],
